@@ -50,7 +50,13 @@ class FcdWorld(au.CutWorld):
             return self.class_oracles[p](c.name[2], c)
         if p in self.extra:
             return self.extra[p](self, m, st, callee, args, term)
-        if args and (au.is_ch(args[0]) or is_popped(args[0])) and p not in self.prog.bodies and "::<impl char>::" in p:
+        first = args[0] if args else None
+        if isinstance(first, Ref):
+            try:
+                first = m.load(st, first.loc)
+            except AnalysisError:
+                first = None
+        if first is not None and (au.is_ch(first) or is_popped(first)) and p not in self.prog.bodies and "::<impl char>::" in p:
             raise ClassRefinement("the code asks %s about a character: the answer is not determined by the character classes %s the rule is stated over" % (p, self.alphabet))
         return au.CutWorld.call(self, m, st, callee, args, term)
 
